@@ -265,3 +265,46 @@ def rf74(run):
     if n == 0:
         raise F.AnalysisBroken('no bottom-tested copy loop template found in mir-x86_64.c')
     return n
+
+
+# ---------------------------------------------------------------------------------------------
+# RF11a: the lazy-generation wrapper aligns the stack whatever way it was entered
+# ---------------------------------------------------------------------------------------------
+
+def rf11a(run):
+    rule = 'RF11a'
+    run.rule(rule, 'x86-64 call wrapper (wrap_end, decoded with objdump): the first call of a function under the lazy interfaces reaches the '
+                   'wrapper through a `call` (rsp = 8 mod 16) or through a jump (MIR_JCALL, rsp = 0 mod 16), so the stack pointer is '
+                   'aligned *dynamically* before the hook is called: rsp (or a copy) is masked with 0xf / ~0xf and rsp adjusted by the '
+                   'result; a constant adjustment is right for one of the two entries only (the hook uses movaps on its frame)')
+    tu = run.tu('mir')
+    g = None
+    for x in tu.globals:
+        if x['name'] == 'wrap_end' and x.get('func') == '_MIR_get_wrapper_end' and x['file'].endswith('mir-x86_64.c'):
+            g = x
+    if g is None:
+        raise F.AnalysisBroken('template wrap_end of _MIR_get_wrapper_end not found')
+    ins = [norm(i) for o, i in disas(template_bytes(g), run.scratch)]
+    calls = [k for k, i in enumerate(ins) if re.match(r'call', i)]
+    if not calls:
+        raise F.AnalysisBroken('wrap_end: no call of the hook found')
+    pre = ins[:calls[0]]
+    direct = any(re.fullmatch(r'and \$0xfffffffffffffff0,%rsp', i) for i in pre)
+    masked = None
+    for k, i in enumerate(pre):
+        m = re.fullmatch(r'and \$0xf,%(\w+)', i)
+        if m:
+            r_ = m.group(1)
+            # the masked value comes from rsp and is subtracted from rsp afterwards
+            from_sp = any(re.fullmatch(r'mov %rsp,%' + r_, j) for j in pre[:k])
+            applied = any(re.fullmatch(r'sub %' + r_ + r',%rsp', j) for j in pre[k + 1:])
+            if from_sp and applied:
+                masked = r_
+    ok = direct or masked is not None
+    run.ob(rule, ('wrap_end',), ok, {'instructions before the hook call': ' | '.join(pre)[:220], 'dynamic alignment': 'and $-16,%rsp' if direct else masked})
+    if not ok:
+        run.violation(rule, '_MIR_get_wrapper_end', 'constant stack adjustment in wrap_end', 'wrap_end adjusts rsp by constants only (%s): the '
+                      'wrapper is entered by `call` from ordinary calls and by a jump from MIR_JCALL, so one of the two entries runs the '
+                      'generator on a stack that is 8 mod 16 (SIGSEGV at its first movaps)'
+                      % ' | '.join(i for i in pre if 'rsp' in i)[:160], file='mir-x86_64.c', line=g['line'])
+    return 1
